@@ -14,5 +14,15 @@ vlib.build_driver()
 import glob, os
 cmds=[os.path.basename(os.path.dirname(p)) for p in glob.glob('harness/cmd/*/main.go')]
 vlib.build_harness(cmds)
+# private OCaml drivers (one per component list used by the checks), so that the first quick run is not slowed down
+kern = sorted({os.path.basename(f)[:-8] for f in glob.glob('ocaml/registry.d/*.kernels')})
+lists = [['arrays'], ['c19'], ['rr'], ['c08'], ['c11'], ['c12'], ['c13'], ['c16'], ['c18'], ['c20'], ['zz_c04'],
+         kern + ['c07'], kern + ['c17'], ['c06', 'c11', 'c12', 'c13', 'c16', 'c19', 'c20', 'rr']]
+for l in lists:
+    try:
+        if all(os.path.exists('coq/Extract/lists/%s.list' % c) for c in l):
+            vlib.build_driver(l)
+    except Exception as e:
+        print('driver', l, 'not built:', str(e)[:200])
 print('setup ok:', cmds)
 PY
